@@ -211,7 +211,7 @@ def _drop_point(pos, si):
     return rt.fin(w is None, w)
 
 
-QUICK = [("list", 3), ("list", 6), ("list", 4), ("strict", 1), ("iso", 3), ("table", 0), ("title", 3)]
+QUICK = [("list", 3), ("list", 6), ("list", 4), ("list", 13), ("strict", 1), ("iso", 3), ("table", 0), ("title", 3)]
 
 
 def obligations(tier, seed):
